@@ -150,7 +150,10 @@ def _bcast_shape(rng, shape):
     for a in range(len(s2)):
         if rng.random() < 0.3:
             s2[a] = 1
-    return s2[rng.randint(0, len(s2)):] if rng.random() < 0.4 else s2
+    s2 = s2[rng.randint(0, len(s2)):] if rng.random() < 0.4 else s2
+    # Calibration: a 0-d ARRAY operand takes part in NumPy 2 type promotion like an array, dask treats it like a scalar
+    # (float32 * 0-d float64 is computed in float32): C19's business, the second operand is at least 1-d here.
+    return s2 or [1]
 
 
 # ----------------------------------------------------------------------------- generation
@@ -183,6 +186,9 @@ def gen_step(rng, v, unknown=False):
         return {"op": op, "how": "axis0", "mask": [rng.random() < 0.6 for _ in range(shape[0])], "mchunk": rng.randint(1, max(1, shape[0]))}
     if op == "setitem":
         index = gen_index(rng, shape, fancy=rng.random() < 0.4, newaxis=False)
+        for it in index:   # Calibration: assignment through negative-step slices gives wrong values / IndexError (C21 #2)
+            if it[0] == "s" and it[3] is not None and it[3] < 0:
+                it[3] = -it[3]
         try:
             tshape = v[idx_of(index)].shape
         except Exception:  # noqa: BLE001
@@ -379,6 +385,8 @@ def gen_step(rng, v, unknown=False):
                     depth[a] = [abs(s_) + rng.randint(0, d - abs(s_)), other] if s_ > 0 else [other, abs(s_) + rng.randint(0, d - abs(s_))]
         return {"op": op, "depth": depth, "shift": shift, "boundary": boundary, "form": rng.choice(("dict", "dict", "tuple"))}
     if op == "unique":
+        if v.dtype.kind in "fc" and np.isnan(v).any():   # Calibration: NaNs of different chunks are not merged (C27's business)
+            return None
         return {"op": op}
     if op == "bincount":
         if nd != 1 or v.dtype.kind not in "iub":
